@@ -360,7 +360,7 @@ def write_adf15(t):
     return "".join(L)
 
 
-def gen_adf15(rng, fmt, nblocks=None, nd=None, nt=None, isel_base=0, ncfg=None, permute_index=False, duplicate=False):
+def gen_adf15(rng, fmt, nblocks=None, nd=None, nt=None, isel_base=0, ncfg=None, permute_index=False, duplicate=False, force_type=None):
     nblocks = nblocks or rng.choice([1, 2, 3, 4, 6])
     types = ["EXCIT", "RECOM", "CHEXC"]
     blocks, index = [], []
@@ -385,7 +385,7 @@ def gen_adf15(rng, fmt, nblocks=None, nd=None, nt=None, isel_base=0, ncfg=None, 
     if rng.random() < 0.3:
         rng.shuffle(isels)                     # index order is the file order, but blocks need not be sorted by isel
     for k in range(nblocks):
-        typ = rng.choice(types)
+        typ = force_type if (force_type and k == 0) else rng.choice(types)
         while True:
             if fmt == "full":
                 up, lo = rng.choice(list(cfg_by_id)), rng.choice(list(cfg_by_id))
